@@ -1151,7 +1151,7 @@ func vC17SelfCheck(c *vh.Case) bool {
 // ---- unit: provide --------------------------------------------------------------------------
 
 func TestVerif_C17_provide(t *testing.T) {
-	vh.Run(t, vh.Spec{Prop: "C17", Unit: "provide", Quick: 21, Thorough: 350, CostMs: 600,
+	vh.Run(t, vh.Spec{Prop: "C17", Unit: "provide", Quick: 42, Thorough: 1200, CostMs: 60,
 		Rule: "PRNG scenario: swarm of 1-2400 simulated peers (uniform / 70% under one prefix / tiny), router K=20, r in {1,3,5,20}, 0 or 30% dead recipients, worker configurations leaving each class a worker, 0 or 20-100 ms / 2-20 ms router/peer latency; 1-600 keys (uniform or single prefix) handed over in 1-4 StartProviding/ProvideOnce calls plus a forced repeat, own addresses changed at a rest point; 35 virtual minutes; cases with index mod 7 in {1,5}: 300-500 kept keys, then 300-500 ProvideOnce keys draining slowly (400-900 ms per RPC) while the scheduled reprovides of their regions fire; non-trivial = >= 1 hand-over obligation judged; distinct by parameter tuple",
 		Clauses: []string{"selfcheck", "provide-bound", "payload", "recipient-reported"}},
 		func(c *vh.Case) {
@@ -1275,7 +1275,7 @@ func vC17OnceDuringReprovide(t *testing.T, c *vh.Case) {
 // ---- unit: reprovide ------------------------------------------------------------------------
 
 func TestVerif_C17_reprovide(t *testing.T) {
-	vh.Run(t, vh.Spec{Prop: "C17", Unit: "reprovide", Quick: 42, Thorough: 700, CostMs: 1500,
+	vh.Run(t, vh.Spec{Prop: "C17", Unit: "reprovide", Quick: 98, Thorough: 3000, CostMs: 120,
 		Rule: "PRNG scenario over 3.6-4.6 virtual hours (interval 1 h, max delay 5 min): keys started in 1-3 calls during the first minutes, then by class (index mod 7): 0/1 steady small provider (800-2000 peers, 30-120 keys: <= 2 keys per region), 2 swarm x4 at a rest point, 3 swarm /4, 4 x4 then /4, 5 many keys with StopProviding / restart of a subset, 6 random churn (3 redraws of the swarm size within [n/4, 4n], <= 2000); clustered swarms stay <= 600 peers (lookup cap of the exploration); r in {1,3,5,20} vs router K=20, dead recipients, worker configurations, latencies as in unit provide; window oracle on every kept key; non-trivial = >= 3 cycles observed and >= 1 full window judged; distinct by parameter tuple + script",
 		Clauses: []string{"selfcheck", "provide-bound", "reprovide-window", "stop", "payload", "recipient-reported"}},
 		func(c *vh.Case) {
@@ -1466,7 +1466,7 @@ func TestVerif_C17_reprovide(t *testing.T) {
 // ---- unit: outage ---------------------------------------------------------------------------
 
 func TestVerif_C17_outage(t *testing.T) {
-	vh.Run(t, vh.Spec{Prop: "C17", Unit: "outage", Quick: 10, Thorough: 200, CostMs: 1500,
+	vh.Run(t, vh.Spec{Prop: "C17", Unit: "outage", Quick: 24, Thorough: 700, CostMs: 80,
 		Rule: "PRNG scenario: 100-1500 peers, 20-400 keys started in the first minutes; after 40-100 min router and peers fail for 1.2-2.8 h (longer than interval + max delay, so every region misses its slot), offline delay 30 min / 2 h (default) / 4 h (Disconnected only); then 1.4 h online; oracle: windows before the outage, complete re-advertisement of every kept key within the catch-up bound, windows afterwards; non-trivial = the provider noticed the outage (left Online) and catch-up was judged for >= 1 key; distinct by parameter tuple",
 		Clauses: []string{"selfcheck", "provide-bound", "catch-up", "reprovide-window", "recipient-reported"}},
 		func(c *vh.Case) {
@@ -1568,7 +1568,7 @@ func vC17QueueKeys(q *queue.ProvideQueue) ([]mh.Multihash, error) {
 }
 
 func TestVerif_C17_restart(t *testing.T) {
-	vh.Run(t, vh.Spec{Prop: "C17", Unit: "restart", Quick: 12, Thorough: 250, CostMs: 700,
+	vh.Run(t, vh.Spec{Prop: "C17", Unit: "restart", Quick: 24, Thorough: 700, CostMs: 60,
 		Rule: "PRNG scenario: 300-1500 peers, 20-400 ProvideOnce keys + 0-200 StartProviding keys (none in every third case) handed to a first provider whose provide queue cannot drain before Close (one worker, 1-3 connections, recipients taking 150-400 ms; Close 1-40 s or 0-50 ms after the hand-over); queue content sampled right before Close; a second provider on the same datastore/keystore with resume (default) must advertise every sampled key completely within 30 virtual minutes; non-trivial = >= 1 key was still queued at Close; distinct by parameter tuple + queued count",
 		Clauses: []string{"selfcheck", "restart-resume", "recipient-reported", "payload"}},
 		func(c *vh.Case) {
